@@ -28,6 +28,8 @@ from vlib.harness import Check, Mismatch, Part
 LIT = (
     list("abcXYZ 019") +
     ["<", ">", "&", '"', "'", "/", "!", "?", "-", "=", ";", ":", "#",
+     # characters that some text functions take for line breaks
+     "\x0c", "\x0b", "\x1c", "\x1e", "\x85", "\u2028", "\u2029",
      "<p>", "</p>", "<br/>", "<!-- c -->", "<![CDATA[x]]>", "<?php x ?>",
      "<?python y = 1 ?>", "<!DOCTYPE html>", "&amp;", "&lt;", "&#38;",
      'tal:content="x"', '<p tal:content="x">', '<b tal:replace="1">',
@@ -114,6 +116,13 @@ class Text(Part):
                 parts.insert(0, ["lit", draw(st.sampled_from(
                     ["<", "<p>", "</x>", "<!--", "<?xml version='1.0'?>",
                      '<p tal:content="a">', "<x ", "<![CDATA["]))])
+            # three interpolations in a row, the last two being different
+            # expressions with look-alike texts
+            if draw(st.integers(0, 5)) == 0:
+                tw = draw(pyexprs.twins())
+                parts += [["expr", draw(pyexprs.exprs(
+                    exclude=("amp_entity",)))], ["lit", " "],
+                    ["expr", tw[0]], ["lit", "|"], ["expr", tw[1]]]
             # escaped interpolations ($${...} is the text ${...}) at the
             # very start and directly behind an interpolation
             esc = ["$${x}", "$$$${a}", "$${a}$${b}", "$${", "$$"]
